@@ -19,6 +19,7 @@ import (
 	"bufio"
 	"context"
 	"encoding/hex"
+	"errors"
 	"fmt"
 	"sort"
 	"strings"
@@ -63,6 +64,8 @@ func plans(o hreg.Opts) []chainPlan {
 		add(chain.Fast(N, N, N, N), 48, "mixed", 40)
 		add(chain.Fast(0, 1, N, N), 32, "rich", 32)
 		add(chain.Fast(0, 0, 1, 3), 48, "poor", 40)
+		add(chain.Fast(0, 0, 0, N), 48, "rich", 28)
+		add(chain.Fast(0, N, N, N), 32, "mixed", 24)
 		add(chain.MinimalAt(1, 2, 3, 4), 64, "uniform", 44)
 		add(chain.RandomConfig(rng.Int63n(1<<30)), 48, "mixed", 32)
 		add(chain.RandomConfig(rng.Int63n(1<<30)), 32, "mixed", 32)
@@ -203,15 +206,46 @@ func genChain(o hreg.Opts, p chainPlan, mutants bool) (out seqOut) {
 	perKind := o.Pick(2, 0)
 	rng := o.Rand()
 	stat("chain_config", p.cfg.ID)
-	for i := 0; i < p.slots; i++ {
+	var gapPre common.BeaconState // state before the first of a run of skipped slots
+	slots := p.slots
+	if !mutants && !o.Thorough() {
+		slots *= 3 // valid blocks are cheap (no mutant volume): longer chains for c01
+	}
+	for i := 0; i < slots; i++ {
 		step, err := c.NextSlot(nil)
 		if err != nil {
+			// the real code refused a block the generator built as valid: hand exactly that block to both sides
+			// (a concrete failing input if the specification accepts it) and end this chain
+			var rej *chain.RejectedError
+			if errors.As(err, &rej) && rej.Step != nil && rej.Step.Block != nil && rej.Step.PreBlock != nil {
+				rs := rej.Step
+				fs, e1 := flat.From(spec, rs.PreBlock)
+				pf, e2 := rs.PreBlock.Fork()
+				tb, e3 := flatblock.Of(rs.Block.Obj)
+				if e1 == nil && e2 == nil && e3 == nil {
+					fv := pf.CurrentVersion
+					pr := postRoot(spec, rs.PreBlock, tb, fv, c.GenesisValidatorsRoot, "valid")
+					orc := ComputeOracle(spec, fs, tb, "valid", pr)
+					out.lines = append(out.lines, "pre "+cfgToks+" "+fs.String(),
+						fmt.Sprintf("blk mode=post tag=%s fv=%x %s", tagOf("generator-block-refused:"+rej.Stage), fv[:], flatblock.Dump(spec, tb, orc)), "reset")
+					stat("chain_aborted", "generated-block-refused-by-real-code")
+					stat("chain_summary", c.Counters.Summary())
+					return
+				}
+			}
 			out.err = err
 			return
 		}
 		if step.Block == nil {
 			stat("slots", "skipped")
+			if gapPre == nil {
+				gapPre = step.Pre
+			}
 			continue
+		}
+		fullPre := step.Pre
+		if gapPre != nil {
+			fullPre, gapPre = gapPre, nil
 		}
 		fork := step.Fork.String()
 		stat("slots", "block")
@@ -228,7 +262,10 @@ func genChain(o hreg.Opts, p chainPlan, mutants bool) (out seqOut) {
 		}
 		fv := pf.CurrentVersion
 		out.lines = append(out.lines, "pre "+cfgToks+" "+fs.String())
-		emit := func(tag string, sb *chain.SignedBlock, engine string, known *[32]byte) {
+		// heal: when the real block processing (no result validation) lets a must-reject corruption through, give the
+		// block the state root it produced and sign it again, so that the validated run ACCEPTS it and the
+		// difference to S is not masked by "invalid state root" (chain.Mutations does the same for its mutants)
+		emitOn := func(preFlat *flat.State, preView common.BeaconState, tag string, sb *chain.SignedBlock, engine string, known *[32]byte, heal bool) {
 			tb, err := flatblock.Of(sb.Obj)
 			if err != nil {
 				out.err = err
@@ -236,10 +273,24 @@ func genChain(o hreg.Opts, p chainPlan, mutants bool) (out seqOut) {
 			}
 			pr := known
 			if pr == nil {
-				pr = postRoot(spec, step.PreBlock, tb, fv, c.GenesisValidatorsRoot, engine)
+				pr = postRoot(spec, preView, tb, fv, c.GenesisValidatorsRoot, engine)
 			}
-			orc := ComputeOracle(spec, fs, tb, engine, pr)
+			if heal && pr != nil && [32]byte(*sb.Header().StateRoot) != *pr {
+				sb = sb.Clone(spec)
+				*sb.Header().StateRoot = *pr
+				c.SignBlock(sb, preView)
+				if tb, err = flatblock.Of(sb.Obj); err != nil {
+					out.err = err
+					return
+				}
+				tag += ":healed"
+				stat("mutants", "healed-state-root")
+			}
+			orc := ComputeOracle(spec, preFlat, tb, engine, pr)
 			out.lines = append(out.lines, fmt.Sprintf("blk mode=post tag=%s fv=%x %s", tagOf(tag), fv[:], flatblock.Dump(spec, tb, orc)))
+		}
+		emit := func(tag string, sb *chain.SignedBlock, engine string, known *[32]byte) {
+			emitOn(fs, step.PreBlock, tag, sb, engine, known, false)
 		}
 		if !mutants {
 			pr := [32]byte(step.PostRoot)
@@ -249,9 +300,30 @@ func genChain(o hreg.Opts, p chainPlan, mutants bool) (out seqOut) {
 				stat("ops_per_kind_and_fork", fork+":"+string(op.Kind))
 			}
 			stat("ops_in_block", bucket(len(step.Ops)))
+			// the same block through the whole state_transition, from the state before slot processing
+			if ex, ok := slotExtras(spec, fullPre, step.Slot); ok {
+				if pfs, err := flat.From(spec, fullPre); err == nil {
+					tb, _ := flatblock.Of(step.Block.Obj)
+					orc := ComputeOracle(spec, fs, tb, "valid", &pr)
+					out.lines = append(out.lines, "reset", "pre "+cfgToks+" "+pfs.String()+" "+ex,
+						fmt.Sprintf("blk mode=full tag=%s fv=%x %s", tagOf("valid-full:"+fork), fv[:], flatblock.Dump(spec, tb, orc)))
+					stat("full_transition_slots", bucket(int(step.Slot)-int(pfs.Slot)))
+					if pfs.Fork != fs.Fork {
+						stat("full_transition", "fork-upgrade-inside:"+pfs.Fork+"->"+fs.Fork)
+					} else if (pfs.Slot)/uint64(spec.SLOTS_PER_EPOCH) != uint64(step.Slot)/uint64(spec.SLOTS_PER_EPOCH) {
+						stat("full_transition", "epoch-boundary-inside")
+					} else {
+						stat("full_transition", "same-epoch")
+					}
+				}
+			}
 		} else {
 			ms := c.Mutations(step, perKind)
-			ms = append(ms, extraMutants(c, step, rng)...)
+			own := map[string]bool{}
+			for _, x := range extraMutants(c, step, rng) {
+				own[x.Label] = true
+				ms = append(ms, x)
+			}
 			if len(ms) > perBlock {
 				// deterministic sample that keeps the spread over mutation kinds: shuffle, then cut
 				rng.Shuffle(len(ms), func(a, b int) { ms[a], ms[b] = ms[b], ms[a] })
@@ -260,7 +332,10 @@ func genChain(o hreg.Opts, p chainPlan, mutants bool) (out seqOut) {
 			}
 			for k := range ms {
 				mu := &ms[k]
-				emit(mu.Label, mu.Block, engineOf(mu), nil)
+				emitOn(fs, step.PreBlock, mu.Label, mu.Block, engineOf(mu), nil, own[mu.Label])
+				if mu.Healed {
+					stat("mutants", "healed-by-chain-library")
+				}
 				stat("mutant_rule_intended", fork+":"+mu.Rule)
 				stat("mutant_area", strings.SplitN(strings.SplitN(mu.Label, ".", 2)[0], "[", 2)[0])
 				if mu.ExpectValid {
@@ -271,6 +346,22 @@ func genChain(o hreg.Opts, p chainPlan, mutants bool) (out seqOut) {
 			}
 		}
 		out.lines = append(out.lines, "reset")
+		if mutants {
+			// the same valid block on variants of the pre-state (rules that no block mutation can reach)
+			for _, v := range stateVariants(spec, step, fs, rng) {
+				view, err := v.st.ToView(spec)
+				if err != nil {
+					out.err = fmt.Errorf("state variant %s: %w", v.label, err)
+					return
+				}
+				out.lines = append(out.lines, "pre "+cfgToks+" "+v.st.String())
+				emitOn(v.st, view, v.label, step.Block, "valid", nil, true)
+				out.lines = append(out.lines, "reset")
+				stat("mutant_rule_intended", fork+":"+v.rule)
+				stat("mutant_area", "pre-state")
+				stat("mutants", "state-variant")
+			}
+		}
 		if out.err != nil {
 			return
 		}
@@ -354,7 +445,7 @@ func loadPre(kv map[string]string) (p *preState) {
 
 func runBlock(p *preState, kv map[string]string) string {
 	mode := kv["mode"]
-	if mode != "post" {
+	if mode != "post" && mode != "full" {
 		return "bad-op"
 	}
 	var fv common.Version
@@ -380,10 +471,17 @@ func runBlock(p *preState, kv map[string]string) string {
 		return "err"
 	}
 	env := tb.Obj().Envelope(sp, common.ComputeForkDigest(fv, p.gvr))
-	if err := common.PostSlotTransition(context.Background(), sp, epc, st, env, true); err != nil {
+	var post common.BeaconState = st
+	if mode == "full" {
+		us := chain.WrapState(st)
+		if err := common.StateTransition(context.Background(), sp, epc, us, env, true); err != nil {
+			return "err"
+		}
+		post = us.BeaconState
+	} else if err := common.PostSlotTransition(context.Background(), sp, epc, st, env, true); err != nil {
 		return "err"
 	}
-	fs, err := flat.From(sp, st)
+	fs, err := flat.From(sp, post)
 	if err != nil {
 		return "err-dump"
 	}
